@@ -24,9 +24,7 @@ def sliced_wasserstein(PD1, PD2, M=50):
             Sliced Wasserstein distance between PD1 and PD2
     """
 
-    diag_theta = np.array(
-        [np.cos(0.25 * np.pi), np.sin(0.25 * np.pi)], dtype=np.float32
-    )
+    diag_theta = np.array([np.cos(0.25 * np.pi), np.sin(0.25 * np.pi)])
 
     l_theta1 = [np.dot(diag_theta, x) for x in PD1]
     l_theta2 = [np.dot(diag_theta, x) for x in PD2]
@@ -42,9 +40,7 @@ def sliced_wasserstein(PD1, PD2, M=50):
     theta = 0.5
     step = 1.0 / M
     for i in range(M):
-        l_theta = np.array(
-            [np.cos(theta * np.pi), np.sin(theta * np.pi)], dtype=np.float32
-        )
+        l_theta = np.array([np.cos(theta * np.pi), np.sin(theta * np.pi)])
 
         V1 = [np.dot(l_theta, x) for x in PD1] + [np.dot(l_theta, x) for x in PD_delta2]
 
